@@ -43,7 +43,8 @@ Inductive bexp :=
   | BBetween (x a b : nexp)
   | BExists (i : nat) | BEmpty (i : nat) | BBare (i : nat)
   | BIn (s : sexp) (opts : list ustring) | BStarts (s : sexp) (p : ustring)
-  | BNot (b : bexp) | BAnd (a b : bexp) | BOr (a b : bexp) | BYes | BNo.
+  | BNot (b : bexp) | BAnd (a b : bexp) | BOr (a b : bexp) | BYes | BNo
+  | BVarSet (x : Z).                         (* a bare variable as a condition: it exists, i.e. holds something other than None (0, False and "" exist) *)
 
 (** bookkeeping functions; [nm] is the id of the variable named by the function's name qualifier; a header argument is a column *)
 Inductive agg :=
@@ -218,6 +219,7 @@ Section Eval.
     | BOr a c => beval s l a || beval s l c
     | BYes => true
     | BNo => false
+    | BVarSet v => match lookup v (vars (x mx s)) with Some VNone | None => false | Some _ => true end
     end.
 
   Definition with_mx (s : cst) (m : mx) : cst :=
